@@ -225,9 +225,11 @@ func (g *G) Arith(ctx *xdoc.Node, depth int) xast.Expr {
 	if depth <= 0 {
 		switch g.intn(8, "leaf") {
 		case 0:
-			return &xast.Call{Name: "count", Args: []xast.Expr{g.FlatPath(base)}}
+			return &xast.Call{Name: "count", Args: []xast.Expr{g.FlatArg(base)}}
 		case 1:
-			fp := g.FlatPath(base)
+			// (FlatArg: three in ten filter on their last step - a step that moves the
+			// evaluation context about, which the operand next to it must not notice)
+			fp := g.FlatArg(base)
 			if v, err := xref.Eval(g.Env, fp, ctx); err == nil {
 				if ns, ok := v.(xref.NodeSet); ok && allNumeric(ns) {
 					return &xast.Call{Name: "sum", Args: []xast.Expr{fp}}
@@ -235,7 +237,7 @@ func (g *G) Arith(ctx *xdoc.Node, depth int) xast.Expr {
 			}
 			return &xast.Call{Name: "count", Args: []xast.Expr{fp}}
 		case 2:
-			return &xast.Call{Name: "number", Args: []xast.Expr{g.FlatPath(base)}}
+			return &xast.Call{Name: "number", Args: []xast.Expr{g.FlatArg(base)}}
 		case 3:
 			if g.chance(5, "numberish") {
 				return &xast.Call{Name: "number", Args: []xast.Expr{&xast.Str{S: litSafe(Numberish(g.T, "numstr"))}}}
